@@ -44,7 +44,10 @@ Menu ==
          CDirect(<<SLet(VN("A","A",""), LI(0))>>) }
   \cup { CDirect(<<SDim(<<d>>)>>) : d \in Dims }
   \cup { CDirect(<<SErase(<<VN("A","A","")>>)>>), CDirect(<<SErase(<<VN("A","A","%")>>)>>),
-         CDirect(<<SErase(<<VN("B","B","")>>)>>), CDirect(<<SErase(<<VN("B","B","$")>>)>>) }
+         CDirect(<<SErase(<<VN("B","B","")>>)>>), CDirect(<<SErase(<<VN("B","B","$")>>)>>),
+         \* use and erase an array whose name is the tail of another array's name, in one line
+         CDirect(<<SLet(AN("B","B","",<<LI(1)>>), One), SErase(<<VN("B","B","")>>)>>),
+         CDirect(<<SLet(AN("B","B","$",<<LI(2)>>), LStr(<<90>>)), SErase(<<VN("B","B","$")>>)>>) }
   \cup { CDirect(<<SDefType("I","A","A")>>), CDirect(<<SDefType("$","A","A")>>), CDirect(<<SDefType("D","A","B")>>),
          CDirect(<<SDefType("S","A","Z")>>), CDirect(<<SDefType("I","F","F")>>) }
   \cup { CDirect(<<SSwap(VN("A","A",""), VN("A","AB",""))>>), CDirect(<<SSwap(VN("A","A",""), VN("A","A","%"))>>),
